@@ -701,6 +701,8 @@ class NetworkGraph(AbstractBaseIR):
             inputs = self[f"{node}/{succ}"]['inputs']
             if var not in inputs.keys():
                 inputs[var] = {'sources': {op}}
+            # operators of the same node keep reading the variable itself, not the buffered output of the operator
+            inputs[var].setdefault('var', var)
 
         # update edge information
         idx_l = 0
